@@ -134,7 +134,10 @@ def _cli_case(rng, op, fl, kind):
     if opt_t:
         # 3..8 levels, the last one above every log2 of the table (the model never consults the ratio 2^log2); the
         # half-hundredths keep them off the two-decimal log2 values of the table (knife-edge rule)
-        k = rng.randint(3, 8)
+        # when ampdel acts before cn, at most 6 levels: every amplified call is then exactly 5, so a squashed ampdel run
+        # has one cn (the weighted median of unequal calls is C19's subject -- see ASSUMPTIONS -- and the call_filters
+        # model cannot hand it on to the cn filter)
+        k = rng.randint(3, 6 if ("ampdel" in fl and "cn" in fl and fl.index("ampdel") < fl.index("cn")) else 8)
         thr = sorted(rng.choice([round(rng.uniform(-3, 0.6), 2) + 0.005, rng.uniform(-2.5, 0.65)]) for _ in range(k - 1))
         thr.append(rng.choice([0.7, 0.75, 1.0, rng.uniform(0.7, 2)]))
     else:
